@@ -74,16 +74,23 @@ Definition zmin_of (v0 : vertex) (vs : list vertex) : Q :=
 Definition zmax_of (v0 : vertex) (vs : list vertex) : Q :=
   fold_left (fun m v => if Qltb m (vz v) then vz v else m) vs (vz v0).
 
-(* the final row mask for one point *)
-Definition selected (area : list vertex) (inside : bool) (p : point) : bool :=
-  let xy := xy_sel inside (wn area p) in
-  match prest p, area with
-  | z :: _, v0 :: vs =>
+(* the final row mask for one point.  (Staged: the edge list and the z range are computed once per
+   area, as in the code; the row is the last argument.) *)
+Definition selected (area : list vertex) (inside : bool) : point -> bool :=
+  let es := edges area in
+  match area with
+  | [] => fun p => xy_sel inside (wn_edges es p)
+  | v0 :: vs =>
       let zmin := zmin_of v0 vs in
       let zmax := zmax_of v0 vs in
-      if inside then xy && (Qleb zmin z && Qleb z zmax)        (* bitwise_and(xy_idx, zmin<=z & z<=zmax) *)
-      else xy || (Qltb z zmin || Qltb zmax z)                  (* bitwise_or (xy_idx, z<zmin | zmax<z)   *)
-  | _, _ => xy                                                 (* shape[1] < 3: xy only *)
+      fun p =>
+        let xy := xy_sel inside (wn_edges es p) in
+        match prest p with
+        | [] => xy                                                   (* shape[1] < 3: xy only *)
+        | z :: _ =>
+            if inside then xy && (Qleb zmin z && Qleb z zmax)        (* bitwise_and(xy_idx, zmin<=z & z<=zmax) *)
+            else xy || (Qltb z zmin || Qltb zmax z)                  (* bitwise_or (xy_idx, z<zmin | zmax<z)   *)
+        end
   end.
 
 (* the two RuntimeErrors of crop_pointcloud, in the order they are tested *)
@@ -130,15 +137,19 @@ Definition footprint_local (b : box) (k : Q) : list (Q * Q) :=
 Definition to_world (b : box) (uv : Q * Q) : Q * Q :=
   (b_r00 b * fst uv + b_r01 b * snd uv + b_x b, b_r10 b * fst uv + b_r11 b * snd uv + b_y b).
 
+(* [Qred] puts a rational in lowest terms; it has no counterpart in the code and no effect on any
+   comparison ([Qred q == q]); it only keeps the numbers small when the model is executed. *)
+Definition vred (v : vertex) : vertex := (Qred (vx v), Qred (vy v), Qred (vz v)).
+
 (* upper plane (z = pos.z + h/2) then lower plane (z = pos.z - h/2); the height is NOT scaled *)
 Definition box_corners (b : box) (k : Q) : list vertex :=
   let fp := map (to_world b) (footprint_local b k) in
-  map (fun q => (fst q, snd q, b_z b + b_h b / 2)) fp ++
-  map (fun q => (fst q, snd q, b_z b - b_h b / 2)) fp.
+  map vred (map (fun q => (fst q, snd q, b_z b + b_h b / 2)) fp ++
+            map (fun q => (fst q, snd q, b_z b - b_h b / 2)) fp).
 
 (* DynamicObject.crop_pointcloud(pointcloud, bbox_scale, inside) *)
-Definition box_selected (b : box) (k : Q) (inside : bool) (p : point) : bool :=
-  selected (box_corners b k) inside p.
+Definition box_selected (b : box) (k : Q) (inside : bool) : point -> bool :=
+  selected (box_corners b k) inside.
 Definition box_crop (b : box) (k : Q) (inside : bool) (cloud : list point) : list point :=
   filter (box_selected b k inside) cloud.
 Definition box_crop_idx (b : box) (k : Q) (inside : bool) (cloud : list point) : list nat :=
